@@ -12,6 +12,8 @@ mod loopback;
 mod c03;
 mod c04;
 mod c08;
+mod c16;
+mod c17;
 mod c05;
 mod peer;
 mod c06;
@@ -189,6 +191,24 @@ fn props() -> Vec<Property> {
             "allocation is observed with a counting global allocator: no single allocation >= 1 MiB while refusing a declared length >= 1 MiB under a limit <= 64 KiB",
         ],
         required_probes: vec!["limit-exactly-hit", "declared-length-without-payload", "refused-without-payload", "allocation-watched", "oversized-candidate-not-first", "oversized-candidate-first", "encode-over-limit", "encode-within-limit"],
+    },
+    Property {
+        id: "C16",
+        title: "grpc-web server layer translates requests and responses losslessly",
+        scenarios: vec![Scenario { name: "F-web-server-layer", engine: "F", run: c16::run, quick: 150_000, thorough: 3_000_000, grid: 0, what: "GrpcWebLayer around a scripted inner service: binary/base64-text request bodies cut anywhere (inside a base64 quantum, 1-byte chunks), inner gRPC responses cut anywhere with arbitrary trailers or trailers-only, Accept binary/text/absent/other, and the (method, version, content-type) status-code cases" }],
+        rule: "one run = one outer request (kind, method, version, content-type, accept, payload) x chunking of the request body x inner response (frames, chunking, trailers) x readiness; every run non-trivial; distinct = distinct hash of structural tape decisions",
+        real_vs_stub: vec![("tonic-web GrpcWebLayer/GrpcWebService/GrpcWebCall", "real"), ("inner gRPC service", "scripted stub (records request, answers scripted frames)"), ("outer HTTP server / hyper", "not run: the layer is called directly as a tower::Service"), ("executor", "simulator-owned"), ("bodies", "SimBody seams")],
+        assumptions: vec!["grpc-web-text responses are decoded as a concatenation of individually padded base64 segments (as browsers' grpc-web clients do)"],
+        required_probes: vec!["text-request", "text-response", "non-post-grpc-web", "other-http1", "other-http2-passthrough", "cut-inside-prefix"],
+    },
+    Property {
+        id: "C17",
+        title: "grpc-web client layer recovers messages and full trailers under any chunking",
+        scenarios: vec![Scenario { name: "F-web-client-layer", engine: "F", run: c17::run, quick: 200_000, thorough: 4_000_000, grid: 0, what: "GrpcWebClientService in front of a scripted grpc-web server: message frames + trailers frame in any chunking (inside frame headers, inside the trailers frame, message and trailers in one chunk, 1-byte chunks), truncated at any byte, malformed variants" }],
+        rule: "one run = one grpc-web response body (0..6 messages + trailers frame with values containing ':' and spaces, repeated names) x chunking x optional truncation/malformation x readiness; every run non-trivial; distinct = distinct hash of structural tape decisions",
+        real_vs_stub: vec![("tonic-web GrpcWebClientService / GrpcWebCall (client decode and encode paths)", "real"), ("grpc-web server", "scripted stub with an independent grpc-web encoder"), ("tonic client::Grpc above the layer", "not run here: the translated body is consumed poll by poll"), ("executor", "simulator-owned"), ("bodies", "SimBody seams")],
+        assumptions: vec!["a cut exactly at a frame boundary (trailers frame missing altogether) is not judged: the property speaks of cuts inside a frame"],
+        required_probes: vec!["cut-inside-trailers-frame-header", "cut-inside-trailers-block", "message-and-trailers-in-one-chunk"],
     },
     Property {
         id: "C07",
